@@ -121,7 +121,7 @@ func (s *MultipartReply) MarshalBinary() (data []byte, err error) {
 
 func (s *MultipartReply) UnmarshalBinary(data []byte) error {
 	err := s.Header.UnmarshalBinary(data)
-	n := s.Header.Len()
+	n := int(s.Header.Len())
 
 	s.Type = binary.BigEndian.Uint16(data[n:])
 	n += 2
@@ -129,7 +129,7 @@ func (s *MultipartReply) UnmarshalBinary(data []byte) error {
 	n += 2
 	n += 4 // for padding
 	var req []util.Message
-	for n < s.Header.Length {
+	for n < int(s.Header.Length) {
 		var repl util.Message
 		switch s.Type {
 		case MultipartType_Aggregate:
@@ -153,7 +153,10 @@ func (s *MultipartReply) UnmarshalBinary(data []byte) error {
 		if err != nil {
 			log.Printf("Error parsing stats reply")
 		}
-		n += repl.Len()
+		if repl.Len() == 0 {
+			return fmt.Errorf("decoded a stats record of length 0")
+		}
+		n += int(repl.Len())
 		req = append(req, repl)
 
 	}
